@@ -1040,6 +1040,13 @@ func (r *Raft) sendAppendEntries(id string, address string, numResponses *int) {
 		return
 	}
 
+	// Ignore the reply to a request of an earlier term. This node may have lost and regained
+	// leadership while the request was in flight: the reply then says nothing about the
+	// follower's log relative to the current log, nor about leadership in the current term.
+	if r.currentTerm != request.Term {
+		return
+	}
+
 	// If the majority of cluster acknowledges the request, this node is a legitimate leader.
 	// Try to apply pending read-only operations.
 	if numResponses != nil {
